@@ -7,6 +7,9 @@ var commonAssumptions = []string{
 }
 
 var props = map[string]propMeta{
+	"C03": {Level: "model_checking", QuickS: 150, ThoroughS: 1500, NeedBin: true,
+		Rule: "every subset of the 14 category paths of depth <= 3 over segments {a,b} (thorough: also every set of <= 4 of the 39 paths over {a,b,c}) as the logged foods, the i-th path logged with quantity 2^i so every printed amount identifies the foods it sums, x {default, --collapse, --collapse-last} x {all foods, -s X} x sign/order/two-day passes. A case is non-trivial when at least two foods are shown.",
+		Assumptions: commonAssumptions},
 	"C02": {Level: "model_checking", QuickS: 120, ThoroughS: 1200, NeedBin: true,
 		Rule: "5 books (flat, empty recipe, nested, element also logged directly, mixed sign) x every first day of <= 3 entries over 4 foods x 5 quantities (x optional second day, earlier or repeated date) x {default, left-aligned, old register, summary}; every output is parsed and compared with the reference register computed in exact rationals. A case (book, log) is non-trivial when a food repeats within a day or the log has more than one day.",
 		Assumptions: commonAssumptions},
